@@ -20,8 +20,8 @@ type opSpec struct {
 }
 
 var opTable = []opSpec{
-	{"Set", "cache", "set", map[string]string{"onlyIfAbsent": "false"}, "set", nil},
-	{"SetIfAbsent", "cache", "set", map[string]string{"onlyIfAbsent": "true"}, "setIfAbsent", nil},
+	{"Set", "cache", "Set", nil, "set", nil},
+	{"SetIfAbsent", "cache", "SetIfAbsent", nil, "setIfAbsent", nil},
 	{"Compute", "cache", "Compute", nil, "compute", nil},
 	{"ComputeIfAbsent", "cache", "ComputeIfAbsent", nil, "computeIfAbsent", nil},
 	{"ComputeIfPresent", "cache", "ComputeIfPresent", nil, "computeIfPresent", nil},
